@@ -16,7 +16,7 @@ def C(tech, text, ref, engine):
 
 CLAIMS = {
     "C02": C("differential testing vs std slice indexing: exhaustive small-bound enumeration + seeded proptest",
-             "Every (length, index, index) combination over the stated index set (incl. the usize::MAX / isize::MAX neighbourhoods, start>end) and element types u8,u64,(),String,[u8;3],[u64;9], a 32-byte-aligned struct and huge ZSTs (lengths and const chunk sizes up to usize::MAX, lengths congruent to small values modulo 2^8/2^16/2^32) is compared by address and length with std's get/get(range)/split_at/try_from/as_chunks; _mut variants are written through and the written range checked.",
+             "Every (length, index, index) combination over the stated index set (incl. the usize::MAX / isize::MAX neighbourhoods, start>end) and element types u8,u64,(),String,[u8;3],[u64;9], a 32-byte-aligned struct and huge ZSTs (lengths and const chunk sizes up to usize::MAX, chunk sizes odd / powers of two / even non-powers of two, lengths congruent to small values modulo 2^8/2^16/2^32) is compared by address and length with std's get/get(range)/split_at/try_from/as_chunks; _mut variants are written through and the written range checked.",
              "DESIGN.md §3 C02", "harness/src/bin/c02.rs"),
     "C03": C("differential testing vs std str indexing with expected-panic predicate: exhaustive enumeration + seeded proptest",
              "All strings up to 5-6 chars over one char of each UTF-8 length plus boundary scalars, x all byte indices (incl. beyond len, usize::MAX) x all pairs: fallible getters == str::get, boundary predicate == is_char_boundary, clamping variants return std's sub-string (by address) and panic exactly when an in-range index is inside a char.",
@@ -49,7 +49,7 @@ CLAIMS = {
              "A committed pairwise corpus (every adapter x every consumer) plus seeded random chains (depth <= 5, 14 sources, 13 adapters, 13 consumers, all closure forms, eval!/for_each!, and a const-context collect_const! batch) are compiled against /repo and run on all small inputs; disagreements are attributed to a listed known finding only when the chain has its structural signature and matches that finding's alternative model (source-reversed std chain; std with take(n+1); std over `end..=end` for an exhausted RangeInclusive source; the konst chain with flat_map's parameter renamed; equality apart from the evaluation count of a function-valued argument expression). Closures also use a variable of the caller, fold/rfold also take a tuple accumulator destructured by the closure, function-path arguments are written as counted function-valued expressions.",
              "DESIGN.md §3 C10, §9.3.1, §9.4", "progs/gen_chain.py"),
     "C11": C("model-based testing of builder histories + generated hostile-closure programs + generated const collect_const! programs differential against std collect + Miri",
-             "map!/map_!/from_fn!/from_fn_! vs std for N in 0..=6 and three element types; all ArrayBuilder op sequences up to depth 6 against a model with a magic-stamped element type; 1100+ generated programs with every kind of early exit inside the closure at every element and every closure-parameter binding form (x, x: T, mut x, ref x, ref mut x with the closure changing its parameter), whose outcome must be compile error / panic / counted loop / left the macro / fully written std-equal array; 500 (thorough 4000) generated const collect_const! items over six item types compared with std collect; the calling crate shadows the assertion macros and has a trait in scope that gives array references a by-value `len` (defect F16); thorough reruns the first two under Miri.",
+             "map!/map_!/from_fn!/from_fn_! vs std for N in 0..=6 and three element types (plus u128 and a 32-byte aligned Drop struct through builder, consumer, map_!, from_fn_!); all ArrayBuilder op sequences up to depth 6 against a model with a magic-stamped element type; 1100+ generated programs with every kind of early exit inside the closure at every element and every closure-parameter binding form (x, x: T, mut x, ref x, ref mut x with the closure changing its parameter), whose outcome must be compile error / panic / counted loop / left the macro / fully written std-equal array; 500 (thorough 4000) generated const collect_const! items over six item types compared with std collect; the calling crate shadows the assertion macros and has a trait in scope that gives array references a by-value `len` (defect F16); thorough reruns the first two under Miri.",
              "DESIGN.md §3 C11, §9.3 F8, §9.3.1 F16", "harness/src/bin/c11.rs, progs/gen_closure_exits.py, progs/gen_collect.py"),
     "C13": C("stateful (operation-history) testing of Parser against its own reported offsets: exhaustive depth 1-3 + seeded proptest histories",
              "Every Parser method with 11 pattern arguments is applied in all sequences of depth 1-2 (rich set) and depth 3 (reduced set) to ~270 originals and three base offsets, plus random histories to depth 12: after every Ok step remainder() must be original[start-base..end-base] on char boundaries nested in the previous range, after every Err the error offset/direction must name the start or end of the parser it was called on, the Display/Debug/panic renderings of the error must carry exactly those values, and user-made errors (ParseError::other_error / with_kind) must round-trip.",
@@ -58,7 +58,7 @@ CLAIMS = {
              "The same histories as C13, but asserting the model: Ok/Err, yielded value and new remainder equal what strip/trim/find/split_once/integer-prefix functions compute from the previous remainder; split/rsplit/split_terminator/rsplit_terminator protocols over all strings up to 6 symbols x 7 delimiters run to their final error and compared with str::split/rsplit.",
              "DESIGN.md §3 C13/C14, §9.7", "harness/src/bin/c13.rs --property C14, harness/fuzz/fuzz_targets/c13_ops.rs, progs/gen_deep.py"),
     "C15": C("stateful testing with a drop ledger: exhaustive consumer/builder histories, generated destructure! programs, Miri",
-             "All ArrayConsumer op sequences (next/next_back/as_slice/swap/clone/drop/assert_is_empty) up to depth 5-6 and ArrayBuilder sequences over a ledger-tracked Drop type, map_!/from_fn_! with a closure panicking at every element, and 800+ generated destructure! programs (braced/tuple structs, tuples to 16, arrays with rest/..; packed, generic, ZST, nested fields; `_` positions) whose in-program ledger must show every id dropped exactly once, `_`-matched ids dropped right after the statement; thorough reruns under Miri.",
+             "All ArrayConsumer op sequences (next/next_back/as_slice/swap/clone/drop/assert_is_empty) up to depth 5-6 and ArrayBuilder sequences over a ledger-tracked Drop type, over-aligned element types (u128, 32-byte aligned Drop struct) through every builder fill level, map_!/from_fn_! with a closure panicking at every element, and 800+ generated destructure! programs (braced/tuple structs, tuples to 16, arrays with rest/..; packed, generic, ZST, nested fields; `_` positions) whose in-program ledger must show every id dropped exactly once, `_`-matched ids dropped right after the statement; thorough reruns under Miri.",
              "DESIGN.md §3 C15, §9.2", "harness/src/bin/c11.rs --property C15, progs/gen_destructure.py (+ a Miri batch of packed structs in the quick tier)"),
     "C17": C("generated compile-fail programs with minimally different controls; rustc verdicts as oracle",
              "Eleven guard families (1370+ programs; G3/G4/G8/G9 also inside a calling crate that defines its own compile_error!, G8 with range patterns that begin with a literal and non-literals forwarded as expr / pat / tt fragments, G2 with patterns without fields or elements; G11 (unions) is run for C01; incl. lifetime laundering through destructure! bindings - by-value fields, rest @ .. sub-arrays, nested patterns - which is how defect F9 was found): each invalid invocation must be rejected by rustc and its control (offending element removed) must compile; each program is compiled alone against the konst rlib built from /repo. A failing control is a harness error (exit 2), never a violation.",
